@@ -41,6 +41,7 @@ EXPLANATION = (
     "2/(nu+delta) (algebraic lints, sympy), with every mode quantity indexed by the walker's own cluster; the random walk "
     "is current + noise with unit coefficient, state-independent noise scale and zero correction. Invariance itself, "
     "consistent two-sided edits, numerics of the inverse/Cholesky factors and in-run step-size adaptation are not decided."
+    " Also (j) every per-mode statistic the acceptance correction reads is one the proposal is drawn with."
 )
 ASSUMPTIONS = ["numpy.random.gamma(shape, scale) and randn draw the documented laws", "mode statistics hold the inverse and the Cholesky factor of the same covariance (constructed in ModeStatistics.__init__, checked structurally under C03.e)"]
 
